@@ -2755,6 +2755,18 @@ void Analyser::AnalyserImpl::analyseModel(const ModelPtr &model)
         }
     }
 
+    // A variable that is used in an ODE, but that is not initialised, and that
+    // has been marked as external is an input of the model: it needs no initial
+    // value, so consider it as a state (its ODE will then be replaced by the
+    // external variable's placeholder equation, as for an initialised state).
+
+    for (const auto &internalVariable : mInternalVariables) {
+        if (internalVariable->mIsExternal
+            && (internalVariable->mType == AnalyserInternalVariable::Type::SHOULD_BE_STATE)) {
+            internalVariable->mType = AnalyserInternalVariable::Type::STATE;
+        }
+    }
+
     // Analyse our different equations' units to make sure that everything is
     // consistent.
 
